@@ -53,8 +53,10 @@ def exc_spec_name(e: dict[str, Any]) -> str:
 
 
 def monitor_case(case: dict[str, Any], impl: list[dict[str, Any]]) -> list[tuple[str, str]]:
+    from .gen_kernel import resolve_reraise
+
     sh = Shadow()
-    ops = case["ops"]
+    ops = resolve_reraise(case["ops"])
     for i, (op, r) in enumerate(zip(ops, impl)):
         try:
             step(sh, i, op, r)
@@ -473,7 +475,7 @@ def monitor_exit(sh: Shadow, i: int, op: dict[str, Any], r: dict[str, Any]) -> N
     want_bodies = []
     want_evs: list[str] = []
     for cb in order:
-        outs = [replay_body(sh, i, x, c, b, want_evs) for b in cb["body"]]
+        outs = [replay_body(sh, i, x, c, b, want_evs, sh.cur.get(t)) for b in cb["body"]]
         if outs:
             want_bodies.append("body [" + ", ".join(outs) + "]")
     if body_lines != want_bodies:
@@ -526,7 +528,8 @@ def monitor_exit(sh: Shadow, i: int, op: dict[str, Any], r: dict[str, Any]) -> N
         sh.ctx[x["parent"]]["children"].discard(c)
 
 
-def replay_body(sh: Shadow, i: int, x: dict[str, Any], c: int, b: dict[str, Any], evs: list[str] | None = None) -> str:
+def replay_body(sh: Shadow, i: int, x: dict[str, Any], c: int, b: dict[str, Any], evs: list[str] | None = None,
+                cur: int | None = -1) -> str:
     """Effect and expected answer of one operation done by a teardown callback (context closing);
     the resource_added events it must cause are appended to `evs`."""
     evs = evs if evs is not None else []
@@ -553,7 +556,9 @@ def replay_body(sh: Shadow, i: int, x: dict[str, Any], c: int, b: dict[str, Any]
             evs.extend(e)
             return "raisedExc exn0" if val is None else f"val {val}"
         return "none" if b["opt"] else "notFound"
-    return f"cur {c}"
+    # current_context() inside a callback: what is current for the task that is leaving the block (the
+    # context itself unless a context entered by hand inside the block was never left)
+    return f"cur {c if cur == -1 else cur}"
 
 
 def monitor_inject(sh: Shadow, i: int, op: dict[str, Any], r: dict[str, Any]) -> None:
